@@ -2111,6 +2111,16 @@ static __used void mcount_startup(void)
 
 		/* minimal sanity check */
 		if (!fstat(fd, &statbuf)) {
+			int hi = fd_move_high(fd);
+
+			if (hi != fd) {
+				char buf[16];
+
+				/* exec'd images look the descriptor up again */
+				snprintf(buf, sizeof(buf), "%d", hi);
+				setenv("UFTRACE_LOGFD", buf, 1);
+				fd = hi;
+			}
 			logfp = fdopen(fd, "a");
 			if (logfp == NULL)
 				pr_err("opening log file failed");
@@ -2139,7 +2149,7 @@ static __used void mcount_startup(void)
 		dirname = UFTRACE_DIR_NAME;
 
 	xasprintf(&channel, "%s/%s", dirname, ".channel");
-	mcount_pfd = open(channel, O_WRONLY);
+	mcount_pfd = fd_move_high(open(channel, O_WRONLY));
 	free(channel);
 
 	if (getenv("UFTRACE_LIST_EVENT")) {
